@@ -4,6 +4,7 @@ UNITS = {
     'V-DEC': {'engine': 'verus', 'file': 'v_dec.unit'},
     'V-ECI': {'engine': 'verus', 'file': 'v_eci.unit'},
     'V-SYM': {'engine': 'verus', 'file': 'v_sym.unit'},
+    'V-ENC': {'engine': 'verus', 'file': 'v_enc.unit'},
 }
 
 STANDING_ASSUMPTIONS = [
